@@ -101,6 +101,7 @@ class Ctx:
         self.solver.set("timeout", timeout_ms)
         self.timeout_ms = timeout_ms
         self.feas_timeout_ms = 400
+        self.known_bytes = set()   # ids of terms already known to lie in 0..255 (saves solver calls in bit operations)
         self.choice_log = []   # outcomes of abstract library decisions (e.g. does int() accept the lexeme)
         self.decisions = list(decisions)
         self.pos = 0
@@ -1165,6 +1166,8 @@ class Interp:
         er = getattr(seq, "elem_range", None)
         if er:
             self.ctx.assume(z3.And(v >= er[0], v < er[1]))
+            if er[0] >= 0 and er[1] <= 256 and isinstance(v, z3.ExprRef):
+                self.ctx.known_bytes.add(v.get_id())
         return v
 
     def ex_Lambda(self, e, fr):
